@@ -682,52 +682,58 @@ def r06_18(ctx):
 
 
 def r06_19(ctx):
-    """R06.19 what passes the int/hex form check is a number for every consumer: _is_base_n() answers True only for text without
-    `_` - Python's int() accepts digit-group underscores (`1_0`, `0x1_f`), the text is exposed as written (R06.14) and
-    `#define CONFIG_X 0x1_f` does not compile while the JSON says 31 (fixed defect 5.56)."""
+    """R06.19 what passes the int/hex form check is a number for every consumer: _is_base_n() - int() succeeding *and* the text
+    having the plain form - is folded over witness texts that int() accepts: `1_0`, `0x1_f` (digit-group underscores), ` 12`,
+    `12 `, `1f\n` (surrounding whitespace), `+12`, `+0x1f` (plus sign) must be refused, `12`, `-12`, `007`, `1f`, `0x1F`, `0X1f`
+    must pass. The text is exposed as written (R06.14), for hex behind an added `0x`: `#define CONFIG_H 0x1_f` / `0x 1f` /
+    `0x+0x1f` do not compile while the JSON says 31 (fixed defects 5.56, 5.57)."""
+    from ..foldcheck import Unfoldable, fold_str_expr
     repo = ctx.repo
     f = repo.func(f"{CORE}:_is_base_n")
     ctx.analysed(f.qual)
     prm = f.node.args.args[0].arg
-    fl = Flow(f.node, resolver=Resolver(f.node)).run()
-    rets = [n for n in ast.walk(f.node) if isinstance(n, ast.Return)]
-    if not rets:
-        raise AnchorError("_is_base_n: no return")
 
-    def excludes(node, pol=True):
-        """the expression being `pol` implies that `_` is not in the text"""
-        if isinstance(node, ast.BoolOp):
-            if isinstance(node.op, ast.And) and pol:
-                return any(excludes(v, True) for v in node.values)
-            if isinstance(node.op, ast.Or) and not pol:
-                return any(excludes(v, False) for v in node.values)
-            return False
-        if isinstance(node, ast.UnaryOp) and isinstance(node.op, ast.Not):
-            return excludes(node.operand, not pol)
-        if isinstance(node, ast.Compare) and len(node.ops) == 1 and isinstance(node.left, ast.Constant) and node.left.value == "_" \
-                and ast.unparse(node.comparators[0]) == prm:
-            return isinstance(node.ops[0], ast.NotIn) if pol else isinstance(node.ops[0], ast.In)
-        if isinstance(node, ast.Call) and ast.unparse(node.func) in ("re.fullmatch", "_re_fullmatch") or (
-                isinstance(node, ast.Call) and isinstance(node.func, ast.Attribute) and node.func.attr in ("fullmatch", "isdigit", "isdecimal")):
-            # a character-class test of the whole text: decided by folding the witness
-            from ..foldcheck import Unfoldable, fold_str_expr
-            try:
-                return pol and not fold_str_expr(node, {prm: "1_0"})
-            except Unfoldable:
-                return False
-        return False
-    for r in rets:
-        construct = f"_is_base_n/`return {ast.unparse(r.value)[:40] if r.value else ''}` never accepts a digit-group underscore"
-        v = r.value
-        if isinstance(v, ast.Constant) and v.value in (False, None):
-            ctx.ok(construct, f.loc(r), nontrivial=False)
-            continue
-        gs = fl.guards_at(r) or set()
-        guarded = any((k.replace('"', "'") == f"'_' not in {prm}" and p) or (k.replace('"', "'") == f"'_' in {prm}" and not p) for k, p in gs)
-        ok = guarded or (v is not None and not isinstance(v, ast.Constant) and excludes(v))
-        (ctx.ok(construct, f.loc(r)) if ok else
-         ctx.bad(construct, "int() also accepts `1_0` and `0x1_f`: the text is exposed as written, the C header does not compile and the formats disagree", f.loc(r)))
+    def run(stmts, env):
+        """fold the function for a text that int() accepts: the conversion attempt is a no-op, its handlers are not taken"""
+        for st in stmts:
+            if isinstance(st, ast.Expr) and isinstance(st.value, ast.Constant):
+                continue
+            if isinstance(st, ast.Expr) and isinstance(st.value, ast.Call) and ast.unparse(st.value.func) == "int":
+                continue
+            if isinstance(st, ast.Assign) and isinstance(st.value, ast.Call) and ast.unparse(st.value.func) == "int":
+                continue
+            if isinstance(st, ast.Pass):
+                continue
+            if isinstance(st, ast.Return):
+                return ("ret", True if st.value is None and False else fold_str_expr(st.value, env) if st.value is not None else None)
+            if isinstance(st, ast.If):
+                r = run(st.body if fold_str_expr(st.test, env) else st.orelse, env)
+                if r is not None:
+                    return r
+                continue
+            if isinstance(st, ast.Try) and not st.finalbody:
+                r = run(st.body, env)
+                if r is None:
+                    r = run(st.orelse, env)
+                if r is not None:
+                    return r
+                continue
+            raise Unfoldable(type(st).__name__)
+        return None
+    for w, want in (("1_0", False), ("0x1_f", False), (" 12", False), ("12 ", False), ("1f\n", False), ("+12", False), ("+0x1f", False),
+                    ("12", True), ("-12", True), ("007", True), ("1f", True), ("0x1F", True), ("0X1f", True)):
+        construct = f"_is_base_n/`{w!r}` {'passes' if want else 'is refused'}"
+        try:
+            r = run(f.node.body, {prm: w})
+        except Unfoldable as e:
+            raise AnalysisError(f"_is_base_n: cannot be folded over a witness text ({e})")
+        if r is None:
+            raise AnalysisError("_is_base_n: falls off the end for a witness text")
+        got = bool(r[1])
+        (ctx.ok(construct, f.loc()) if got == want else
+         ctx.bad(construct, ("int() accepts it and so does the form check: the text is exposed as written, the C header does not compile and the formats disagree" if not want
+                             else "a well-formed number is refused by the form check"), f.loc()))
 
 
 def rules():
-    return [("R06.19", r06_19, 2), ("R06.18", r06_18, 3), ("R06.17", r06_17, 3), ("R06.16", r06_16, 6), ("R06.15", r06_15, 4), ("R06.14", r06_14, 2), ("R06.13", r06_13, 3), ("R06.12", r06_12, 1), ("R06.11", r06_11, 3), ("R06.10", r06_10, 12), ("R06.6", r06_6, 14), ("R06.7", r06_7, 3), ("R06.1", r06_1, 7), ("R06.2", r06_2, 6), ("R06.3", r06_3, 2), ("R06.4", r06_4, 20), ("R06.5", r06_5, 3), ("R06.8", r06_8, 12), ("R06.9", r06_9, 1)]
+    return [("R06.19", r06_19, 13), ("R06.18", r06_18, 3), ("R06.17", r06_17, 3), ("R06.16", r06_16, 6), ("R06.15", r06_15, 4), ("R06.14", r06_14, 2), ("R06.13", r06_13, 3), ("R06.12", r06_12, 1), ("R06.11", r06_11, 3), ("R06.10", r06_10, 12), ("R06.6", r06_6, 14), ("R06.7", r06_7, 3), ("R06.1", r06_1, 7), ("R06.2", r06_2, 6), ("R06.3", r06_3, 2), ("R06.4", r06_4, 20), ("R06.5", r06_5, 3), ("R06.8", r06_8, 12), ("R06.9", r06_9, 1)]
